@@ -9,7 +9,7 @@ import networkx as nx
 from ..cfg import eval3, CFG, ENTRY, EXIT, RAISE, reaching_defs
 from ..common import calls_named, dotted, kw, loc, norm, stmt_of
 from ..model import AnalysisError, ClassInfo, FunctionInfo, own_nodes
-from .util import anchor_func, assigned_name, build_cfg, facts, switch_assumptions
+from .util import specialise_defaults, anchor_func, assigned_name, build_cfg, facts, switch_assumptions
 
 TENSOR = "mygrad.tensor_base.Tensor"
 BACKWARD = f"{TENSOR}.backward"
@@ -463,7 +463,7 @@ def r14_3(run):
                    note=None if prov in ("SAME_AS", "SLICE_OF") else "shape unverified")
             dt = norm(s.value)
     # ---- Tensor.copy
-    cp = anchor_func(run, f"{TENSOR}.copy")
+    cp = specialise_defaults(anchor_func(run, f"{TENSOR}.copy"), keep=("constant",))
     for s in own_nodes(cp.node):
         if isinstance(s, ast.Assign) and any(isinstance(t, ast.Attribute) and t.attr == "_grad" for t in s.targets):
             if is_none_value(s.value):
